@@ -36,6 +36,7 @@ struct Replica {
   std::vector<KindReg> kind_regs; BSet kind_initial_union; bool kinds_tracked = true;
   // shm
   void *shm_addr = nullptr; size_t shm_len = 0; int shm_fd = -1; std::string shm_file; uint64_t shm_off = 0;
+  bool aux_stale = false, aux_stale_numa = false;        // a restrict succeeded and nothing has looked at distances / memattrs / kinds since (reach probes only)
   int loaded_from = 0;           // 0 synthetic, 1 xml corpus, 2 xml restart, 3 dup, 4 shm, 5 bundled snapshot
 };
 
@@ -50,6 +51,7 @@ struct Cfg {
 
 struct World {
   Replica r[MAXREP]; Cfg cfg; Run *run = nullptr; uint64_t next_token = 1000;
+  int cur_ri = -1; bool in_wf_probe = false;   // replica the current op runs on (exec_on); re-entrancy guard of the pre-cut WF look
   std::map<std::string, std::string> hint;   // oracle id prefix -> class suffix naming the specific history that an op just produced (known findings)
   int nlive() const { int n = 0; for (auto &x : r) n += x.live(); return n; }
   int pick(uint64_t sel) const { int n = nlive(); if (!n) return -1; int k = (int)(sel % n); for (int i = 0; i < MAXREP; i++) if (r[i].live() && !k--) return i; return -1; }
@@ -100,5 +102,8 @@ void models_after_restrict(World &w, int ri, const Dump &B, const Dump &A);
 void check_models(World &w, int ri, const char *ctx);
 void models_init(World &w, int ri);
 void derive_models(World &w, int si, int di, bool fresh);
+std::string export_with_userdata(World &w, Replica &R, bool v2, uint64_t sel);   // buffer export with <userdata> records on a seeded handful of objects ("" on failure)
+void install_reading_import_cb(hwloc_topology_t t);                             // userdata import callback that reads every delivered byte
+void own_section_first(World &w, const Dump &ds, const Dump &dd, const char *how);   // C13/C14/C15 runs: their own section of the dump judged before a derivation oracle of C12/C05/C19 cuts the run
 
 }  // namespace hwsim
